@@ -1044,6 +1044,17 @@ def restore_violations(before, after, inv_code, killed, archive_rows, internal=N
         b, a = I.subtree(before["tree"], rel), I.subtree(after["tree"], rel)
         if b and a != b:
             probs.append(("restore-modified-an-existing-version-directory", {"dir": rel}))
+    # ... nor is a directory that stood, unrecorded, in the place of one of the archive's versions (left by a failed
+    # execution, or its index row was lost): restore did not make it and may neither fill nor remove it, least of all
+    # while "cleaning up" after a failure (seeded change C12h-1)
+    for r in (archive_rows or []):
+        rel = M.out_dir_rel(r[0], r[1])
+        if tuple(r) in bset or not before or before["tree"].get(rel) != ("d",):
+            continue
+        b, a = I.subtree(before["tree"], rel), I.subtree(after["tree"], rel)
+        if a != b and not (success and not killed):     # (the successful case is reported above)
+            probs.append(("unsuccessful-restore-modified-or-removed-a-pre-existing-directory",
+                          {"dir": rel, "still_there": after["tree"].get(rel) == ("d",)}))
     return probs
 
 
